@@ -140,7 +140,8 @@ def tables(draw, spec, max_rows=8, ragged=True, bad=True):
                          for f in fields])
         else:
             n = draw(st.integers(1, len(fields) + (0 if spreadsheet else 1)))
-            row = [draw(st.text("Header cell,;9", min_size=0, max_size=6)) for _ in range(n)]
+            # header cells are free text: delimiters, quotes-to-be and line breaks included (one row all the same)
+            row = [draw(st.text("Header cell,;9\n", min_size=0, max_size=6)) for _ in range(n)]
             if spreadsheet or True:
                 row[-1] = row[-1] or "h"
             rows.append(row)
